@@ -48,8 +48,17 @@ Definition prbs_new (uninitialised_history : list N) : prbs :=
          ConstsPrbs.prbs_hist_count_init ConstsPrbs.prbs_hist_pos_init.
 
 (** void reset() *)
+(** the members it assigns are read from the source (the ConstsPrbs.prbs_reset_ constants): one it does not mention keeps its value *)
+Definition keep (o : option N) (old : N) : N := match o with Some x => x | None => old end.
 Definition prbs_reset (v : prbs) : prbs :=
-  mkPRBS ConstsPrbs.prbs_reset_state false 0 0 0 zero_history 0 0.
+  mkPRBS ConstsPrbs.prbs_reset_state
+         (match ConstsPrbs.prbs_reset_synced with Some x => negb (N.eqb x 0) | None => synced v end)
+         (keep ConstsPrbs.prbs_reset_sync_count (sync_count v))
+         (keep ConstsPrbs.prbs_reset_bit_count (bit_count v))
+         (keep ConstsPrbs.prbs_reset_err_count (err_count v))
+         (match ConstsPrbs.prbs_reset_history_fill with Some x => repeat x ConstsPrbs.prbs_history_size | None => history v end)
+         (keep ConstsPrbs.prbs_reset_hist_count (hist_count v))
+         (keep ConstsPrbs.prbs_reset_hist_pos (hist_pos v)).
 
 (** bool generate() *)
 Definition prbs_generate (v : prbs) : prbs * bool :=
